@@ -387,16 +387,16 @@ type recPart struct {
 	Err                       string
 }
 
-func (g *recGK) Recover()                            {}
-func (g *recGK) CleanNow()                           {}
-func (g *recGK) Prune(time.Duration)                 {}
+func (g *recGK) Recover()            {}
+func (g *recGK) CleanNow()           {}
+func (g *recGK) Prune(time.Duration) {}
 func (g *recGK) Ready() bool {
 	g.mu.Lock()
 	defer g.mu.Unlock()
 	return !g.notReady
 }
-func (g *recGK) Scan(string) ([]byte, error)         { return []byte("[]"), nil }
-func (g *recGK) Stop(bool)                           {}
+func (g *recGK) Scan(string) ([]byte, error) { return []byte("[]"), nil }
+func (g *recGK) Stop(bool)                   {}
 func (g *recGK) Received(p []sts.Binned) int {
 	g.mu.Lock()
 	defer g.mu.Unlock()
